@@ -20,8 +20,13 @@ PROPS = {}
 MANIFEST_TEXT = {}
 
 
+CLAIMED = set()
+
+
 def reg(pid, families, rule, text, note, assumptions=(), extra_trust=(), level="proof", technique=TECH, section=None,
-        extra=None):
+        extra=None, claimed=True):
+    if claimed:
+        CLAIMED.add(pid)
     PROPS[pid] = {
         "families": families,
         "level": level,
@@ -110,3 +115,10 @@ reg("C16", ["c16", "c16e"],
     note="Trusted: kernel; regex re-implemented as a deterministic recogniser and chrono as Calendar.v (both correspondence-checked); "
          "input domain code points <= U+00FF.",
     assumptions=["timestamp texts contain only code points <= U+00FF (all that latin1_to_string / unescape can produce)"])
+
+
+# ---- registered for development, not yet claimed in MANIFEST.json (theorems still being written)
+for _pid, _fams in (("C01", ["c01"]), ("C02", ["c02"]), ("C03", ["c03"]), ("C04", ["c04"]), ("C07", ["c07"]), ("C08", ["c08"]),
+                    ("C12", ["c12"]), ("C13", ["c13", "errtab"]), ("C14", ["c14"]), ("C15", ["c15"]), ("C19", ["c19"])):
+    if _pid not in PROPS:
+        reg(_pid, _fams, rule="(development)", text="(development)", note="(development)", claimed=False)
